@@ -1,7 +1,7 @@
 (* C21 — block alternate replaces exactly the selected construct.  Statements only. *)
 From Coq Require Import List Arith NArith ZArith Bool.
 Import ListNotations.
-From Orca Require Import Util Flat Lowering CheckLow LowSpecial.
+From Orca Require Import Util Flat Lowering CheckLow LowPlain LowSpecial LowAlt.
 
 (* block-alternate is accepted exactly on block / loop / if / else *)
 Theorem C21_accepted_on_constructs_only :
@@ -14,11 +14,32 @@ Proof.
 Qed.
 Print Assumptions C21_accepted_on_constructs_only.
 
-(* PARTIAL: the executable specification [spec21] (CheckLow.v: the construct from its opener through its
-   matching end -- for else: the else and its arm, the end kept -- is replaced by the replacement code;
-   everything outside, with its before/after/alternate instrumentation, is untouched) is compared with the
-   real output on every sampled (body, plan); the theorem `model c = spec21` for all bodies is not proved.
-   (D19, FunctionModifier::inject_at dropping the replacement, has been repaired.) *)
+(* For every body and every plan over before / after / alternate / block-alternate (replacement or removal, any
+   nesting, several per site, any API path), the model of the injection API + resolve_special_instrumentation
+   + emission is exactly [dspec]: one left-to-right pass with a depth counter in which an opener (or else)
+   carrying a block-alternate, met outside a removed region, is replaced by its replacement code and opens a
+   removed region ending at its matching end (for else: just before the end, which is kept); inside a removed
+   region no original instruction is emitted; everything else is rendered as in C15.  Locals untouched. *)
+Theorem C21_block_alternate_lowering_exact :
+  forall c : lcase,
+    plan_ok (c_body c) (c_plan c) = true -> is_nil (c_entry c) = true -> is_nil (c_exit c) = true ->
+    model c = Some (dspec (c_plan c) (length (c_body c) - 1) 0 1 None true (c_body c), c_groups c).
+Proof. exact lowering_alt_exact. Qed.
+Print Assumptions C21_block_alternate_lowering_exact.
+
+Theorem C21_checker_sound :
+  forall c : lcase, agree c = true -> plan_ok (c_body c) (c_plan c) = true -> is_nil (c_entry c) = true -> is_nil (c_exit c) = true ->
+    match c_obs c with
+    | Some (b, _) => obs_is (dspec (c_plan c) (length (c_body c) - 1) 0 1 None true (c_body c)) b = true
+    | None => False
+    end.
+Proof. exact checker_alt_sound. Qed.
+Print Assumptions C21_checker_sound.
+
+(* The region-based reading of the property ([spec21] in CheckLow.v: the construct from its opener through its
+   matching end -- for else: the else and its arm -- is replaced) and the depth-counter pass [dspec] are compared
+   with each other and with the real output on every sampled (body, plan) (CheckLow.holds21); their equivalence
+   for all well-bracketed bodies is the remaining proof obligation of C21 (PARTIAL). *)
 Example C21_spec_example :
   let body := [FConst 1; FIf BtEmpty; FBlock BtEmpty; FOther 1; FEnd; FElse; FOther 2; FEnd; FLoop BtEmpty; FEnd; FEnd] in
   spec21 [(5%nat, MBlockAlt, [FConst 7; FDrop]); (8%nat, MBlockAlt, []); (0%nat, MBefore, [FOther 3])] body
